@@ -14,7 +14,11 @@ def cases(tier):
         cs.append(('arith.carrysave', dict(wa=w[0], wb=w[1], wc=w[2])))
     for red in ('wallace', 'dada'):
         for add in ('kogge', 'ripple', 'cla'):
-            for ws in [(1, 1), (1, 1, 1), (2, 2, 2), (3, 1, 2), (3, 3, 3, 3), (1, 2, 3, 4, 5), (4, 4)]:
+            # operand counts around every power of two, equal widths so that the top column is reached
+            more = [(3,) * 5] if (add == 'kogge' or tier != 'quick') else []
+            if tier != 'quick':
+                more += [(4,) * n for n in (6, 7, 9, 10, 11)]
+            for ws in [(1, 1), (1, 1, 1), (2, 2, 2), (3, 1, 2), (3, 3, 3, 3), (1, 2, 3, 4, 5), (4, 4)] + more:
                 cs.append(('arith.group_adder', dict(ws=list(ws), reducer=red, adder=add)))
             cs.append(('arith.group_adder', dict(ws=[1, 1], reducer=red, adder=add, dup=True)))
             cs.append(('arith.group_adder', dict(ws=[2, 3], reducer=red, adder=add, dup=True)))
@@ -30,6 +34,17 @@ def cases(tier):
             cs.append(('arith.fma', dict(wa=wa, wb=wb, wc=wc, reducer=red, adder='kogge',
                                          general=(wa <= 3))))
     return cs
+
+
+def _reg_order(block):
+    """registers in a process-independent order: named ones by name, auto-named ones (tmpN) by N"""
+    import re
+    import pyrtl
+
+    def key(r):
+        m = re.match(r'^tmp(\d+)$', r.name)
+        return (1, int(m.group(1)), '') if m else (0, 0, r.name)
+    return sorted(block.wirevector_subset(pyrtl.Register), key=key)
 
 
 def seq_mult_check(task):
@@ -79,7 +94,9 @@ def seq_mult_check(task):
         dt = time.time() - t0
         if r == z3.sat:
             m = s.model()
-            regs = {r_.name: model_int(m, t_) for r_, t_ in sym.fresh_state('s0')['regs'].items()}
+            byname = {r_.name: model_int(m, t_) for r_, t_ in sym.fresh_state('s0')['regs'].items()}
+            # auto-generated register names (tmpN) differ between processes: identify by position
+            regs = [[i, byname[r_.name]] for i, r_ in enumerate(_reg_order(block)) if r_.name in byname]
             return dict(task=task, status='refuted', solver_s=dt,
                         cex=dict(A=model_int(m, A), B=model_int(m, B), regs=regs))
         return dict(task=task, status='proved' if r == z3.unsat else 'unknown', solver_s=dt)
@@ -95,8 +112,9 @@ def seq_mult_replay(p, A, B, regs=None):
     seq_mult_build(p)
     block = pyrtl.working_block()
     rm = {}
-    for nm, v in (regs or {}).items():
-        rm[block.wirevector_by_name[nm]] = v
+    order = _reg_order(block)
+    for i, v in (regs or []):
+        rm[order[i]] = v
     sim = pyrtl.Simulation(register_value_map=rm)
     wa = p['wa']
     seen_done = None
